@@ -1,0 +1,16 @@
+//go:build verif
+
+package verifhook
+
+import (
+	"github.com/open2b/scriggo/internal/compiler"
+)
+
+// Parser entry points for the syntax tree properties (add-only).
+var (
+	ParseSource         = compiler.VerifParseSource
+	ParseTemplateSource = compiler.VerifParseTemplateSource
+	ParseProgram        = compiler.VerifParseProgram
+	ParseTemplate       = compiler.VerifParseTemplate
+	ParseExpr           = compiler.VerifParseExpr
+)
